@@ -760,6 +760,9 @@ class PoissonSeamEngine:
     def max_reported_classes(self):
         return 3
 
+    def spec_cost(self, spec):
+        return 1 if "mol" in spec else 0  # a molecular run costs 10-100x an atomic one: minimise an atomic witness if there is one
+
     def _generate_molecular(self, seed, submode):
         rng = random.Random(seed)
         n = rng.choice([2, 2, 3])
